@@ -30,6 +30,18 @@ func runC18(c *sim.Ctx, t *testing.T) {
 		return
 	}
 	ctx := context.Background()
+	if c.Chance(1, 3, "copiedspec") {
+		// a host that derives a new version from a loaded spec: copy, compile, use the copy
+		// (same error settings: Spec.Copy leaves them behind)
+		cp := spec.Copy("2")
+		cp.ActionErrorBranches, cp.ActionErrorNode, cp.NoAutoErrorNode, cp.ErrorNode = spec.ActionErrorBranches, spec.ActionErrorNode, spec.NoAutoErrorNode, spec.ErrorNode
+		if err := cp.Compile(ctx, interpreters, true); err != nil {
+			c.Infra = "copied spec does not compile: " + err.Error()
+			return
+		}
+		spec = cp
+		c.Count("specs_copied_and_recompiled")
+	}
 	// several machines share the compiled spec; they carry different sets of
 	// permanent bindings (the first one none at the start)
 	type machine struct {
